@@ -93,7 +93,7 @@ func c18HookConf(kv map[string]string, w *world) string {
 		case p == nil:
 			return "nil"
 		}
-		if c, ok := p.(*comp); ok {
+		if c, ok := asComp(p); ok {
 			if c == nil {
 				return "nil"
 			}
